@@ -492,19 +492,13 @@ theorem initWith_minv (cfg : Config S) (P : NodeId → Proto S σ) (pre : List (
 
 theorem reachable_minv {cfg : Config S} (hdt : 0 < cfg.dt) {P : NodeId → Proto S σ} {w : World S σ}
     (h : Reachable cfg P w) : MInv cfg w := by
-  obtain ⟨pre, n, rfl⟩ := h
   have hdt' : 0 ≤ cfg.dt := by omega
-  suffices ∀ n (w : World S σ), WInv w → MInv cfg w → WInv (steps cfg P n w) ∧ MInv cfg (steps cfg P n w) from
-    (this n _ (initWith_inv cfg P hdt' pre) (initWith_minv cfg P pre)).2
-  intro n
-  induction n with
-  | zero => intro w hw hp; exact ⟨hw, hp⟩
-  | succ n ih =>
-    intro w hw hp
-    have hprep : WInv (prep cfg P w) := by
-      unfold prep; split
-      · exact hw
-      · exact (initialise_inv cfg P w hw).1
-    exact ih _ (step_inv cfg hdt' P w hw).1 (step_minv cfg hdt P w hp hprep)
+  refine h.rec_inv (init_minv cfg P) (fun w hr hp => ?_) (fun w n p _ hp => hp.mext (mext_runProg cfg n p w))
+  have hw := reachable_inv hdt' hr
+  have hprep : WInv (prep cfg P w) := by
+    unfold prep; split
+    · exact hw
+    · exact (initialise_inv cfg P w hw).1
+  exact step_minv cfg hdt P w hp hprep
 
 end Sim
